@@ -122,7 +122,7 @@ class RichFormulaGen(gen_formula.FormulaGen):
 
 def plan(tier, seed):
   n, steps = (16, 40) if tier == 'quick' else (64, 60)
-  return [{'witness': 'summary_raising_key'}, {'witness': 'nan_groupby_key'}, {'witness': 'big_int'}, {'witness': 'nan_in_list'}] + \
+  return [{'witness': 'summary_raising_key'}, {'witness': 'nan_groupby_key'}, {'witness': 'big_int'}, {'witness': 'nan_in_list'}, {'witness': 'tuple_as_list'}, {'zoo': 1}] + \
          [{'hseed': seed * 100003 + 7000 + i, 'steps': steps, 'every': 5} for i in range(n)]
 
 
@@ -377,12 +377,17 @@ def only_nan_container_updates(stored):
 
 
 BIG_INT = re.compile(r'\bint:(-?\d{10,})')
+TUPLE = re.compile(r'\btuple\[')
 
 
 def known_type_change(tc, S, R):
-  """Mechanism key of a listed finding that explains the type changes, or None."""
-  if tc and user_data_equal(S, R) and all(BIG_INT.sub('UnmarshallableValue:\\1', x) == y for x, y in tc[5]):
-    return 'big_int_reopens_as_unmarshallable'
+  """Mechanism key of a listed finding that explains every change of a raw data value between the live and the reopened
+  engine, or None. Both listed findings are about values whose *encoding* is the same before and after (so all data columns
+  report equal values): ints beyond 32 bits come back as UnmarshallableValue, tuples come back as lists."""
+  if not tc or not user_data_equal(S, R):
+    return None
+  if all(TUPLE.sub('list[', BIG_INT.sub('UnmarshallableValue:\\1', x)) == y for x, y in tc[5]):
+    return 'tuple_reopens_as_list' if any(TUPLE.search(x) for x, y in tc[5]) else 'big_int_reopens_as_unmarshallable'
   return None
 
 
@@ -460,6 +465,35 @@ def witness_nan_in_list(acc):
       acc.violation('reopen_emits_stored', 'witness history: %s %s' % (reply.stored[:3], d[:3]), {'diff': d, 'stored': reply.stored})
 
 
+def witness_tuple_as_list(acc):
+  """Open finding tuple_reopens_as_list: a data cell of a column that is not a ChoiceList and holds a tuple (here: the cells of
+  a ChoiceList column converted to type Any) is reported as ['L', ...], which loads as a list: formulas that read the cell see
+  another type (tuple + tuple works, list + tuple raises) and, a list being unhashable, a summary table grouped by the column
+  loses its rows."""
+  from vlib.client import EngineProc
+  with EngineProc(timeout=240.0) as p:
+    p.init_doc()
+    p.apply([['AddTable', 'T', [{'id': 'C', 'type': 'ChoiceList', 'isFormula': False}]]])
+    p.apply([['BulkAddRecord', 'T', [None, None], {'C': [['L', 'a'], ['L', 'a', 'b']]}]])
+    p.apply([['ModifyColumn', 'T', 'C', {'type': 'Any'}]])
+    p.apply([['CreateViewSection', 1, 0, 'record', [2], None]])
+    p.apply([['AddColumn', 'T', 'F', {'isFormula': True, 'type': 'Any', 'formula': '$C + ("x",)'}]])
+    S = snapshot.take(p)
+    fresh, reply, info = reopen.reopen(p, {'timeout': 240.0})
+    try:
+      R = snapshot.take(fresh)
+      tc = first_type_change(p.call('verif_py', 'props.C07_inproc', 'value_fingerprints'), fresh.call('verif_py', 'props.C07_inproc', 'value_fingerprints'))
+    finally:
+      fresh.close()
+    acc.count('witness_runs')
+    d = snapshot.diff(S, R)
+    if (d or reply.stored) and known_type_change(tc, S, R) == 'tuple_reopens_as_list':
+      acc.violation('tuple_reopens_as_list', 'witness: ChoiceList column converted to Any, F = $C + ("x",), summary by C; reopened: stored %s, '
+                    'diff %s' % (snapshot._short(reply.stored[:2], 300), d[:3]), {'diff': d, 'stored': reply.stored, 'type_change': tc})
+    elif d or reply.stored:
+      acc.violation('reopen_state_differs', 'witness history: %s %s' % (reply.stored[:3], d[:3]), {'diff': d, 'stored': reply.stored})
+
+
 def witness_big_int(acc):
   """Open finding big_int_reopens_as_unmarshallable: an Any data cell holding an int beyond 32 bits (entered, or left by a
   trigger formula such as 2 ** 40) is reported as ['U', '<digits>'], which loads as an UnmarshallableValue object: formulas
@@ -487,7 +521,57 @@ def witness_big_int(acc):
       acc.violation('reopen_state_differs', 'witness history: %s %s' % (reply.stored[:3], d[:3]), {'diff': d, 'stored': reply.stored})
 
 
+ZOO_VALUES = [
+  ['d', 86400.0 * 18321], ['d', -86400.0 * 20000], ['D', 1604597670.5, 'Europe/London'], ['D', 1636263000.0, 'America/New_York'],
+  ['D', 1300000000.0, 'Asia/Kolkata'], ['D', 1325203200.0, 'Pacific/Kiritimati'], ['D', 1.6e9, 'Australia/Lord_Howe'], ['D', -1e9, 'UTC'],
+  ['L'], ['L', 1, 'a', None, 2.5, True], ['L', ['L', 1, ['L', 2]], ['d', 86400.0]], ['L', ['D', 1.5e9, 'Asia/Tokyo']],
+  ['O', {}], ['O', {'a': 1, 'b': ['L', 'x'], 'c': ['O', {'d': ['d', 0.0]}]}], ['E', 'ValueError'], ['E', 'KeyError', 'msg', 'details'],
+  ['E', 'TypeError', 'm', None, {'u': 5}], ['P'], ['C'], 0, 1, -1, 2 ** 31 - 1, -2 ** 31, 1.5, -0.0, 1e300, 5e-324, float('inf'), -float('inf'), 2.0 ** 53 + 2,
+  True, False, None, '', 'text', 'é☃', 'a\x00b', '[1, 2]', "['L']", ' 12 ', '2020-01-01', 'x' * 300,
+]
+ZOO_PROBES = [
+  'type($V).__name__', '$V', '[$V, $V]', '{"v": $V}', 'IFERROR($V.isoformat(), "no")', 'IFERROR($V.tzinfo.zone.name, "no")', 'IFERROR($V.hour, "no")',
+  'IFERROR(str($V.utcoffset()), "no")', 'IFERROR($V + 1, "no")', 'IFERROR(len($V), -1)', 'IFERROR(hash($V) is not None, "unhashable")',
+  'IFERROR($V.year, "no")', 'IFERROR(sorted($V.keys()), "no")', 'IFERROR([type(x).__name__ for x in $V], "no")', 'IFERROR(float($V), "no")',
+  'IFERROR($V.upper(), "no")', '$V == $V', 'ISERROR($V)', 'IFERROR($V[0], "no")', 'IFERROR($V["c"]["d"].year, "no")', 'bool($V) if not ISERROR($V) else None',
+  'IFERROR([x.tzinfo.zone.name for x in $V], "no")', 'IFERROR($W.tzinfo.zone.name, "no")', 'IFERROR($W.isoformat(), "no")', 'IFERROR($X.isoformat(), "no")',
+  'type($W).__name__', 'type($X).__name__', 'type($T).__name__', 'type($C).__name__', 'IFERROR($C + ("z",), "no")',
+]
+
+
+def zoo(acc):
+  """Deterministic document: one Any data column holding every value kind a client can enter, typed data columns (DateTime with
+  zones, Date, ChoiceList, Text) holding right-typed and alt-text values, and probe formulas that observe what a formula can see
+  of each cell. One reopening; judged by the same oracle as the random histories."""
+  from vlib.client import EngineProc
+  with EngineProc(timeout=240.0) as p:
+    p.init_doc()
+    p.apply([['AddTable', 'Z', [{'id': 'V', 'type': 'Any', 'isFormula': False}, {'id': 'W', 'type': 'DateTime:Asia/Kolkata', 'isFormula': False},
+                                {'id': 'X', 'type': 'Date', 'isFormula': False}, {'id': 'T', 'type': 'Text', 'isFormula': False},
+                                {'id': 'C', 'type': 'ChoiceList', 'isFormula': False}]]])
+    n = len(ZOO_VALUES)
+    p.apply([['BulkAddRecord', 'Z', [None] * n, {
+      'V': json.loads(json.dumps(ZOO_VALUES)),
+      'W': [[1.6e9 + i * 3600.5, ['D', 1.5e9 + i, 'America/New_York'], 'soon', None, ['d', 86400.0 * i]][i % 5] for i in range(n)],
+      'X': [[86400.0 * i, ['d', 86400.0 * (i - 20) * 300], 'not a date', None, 1e18][i % 5] for i in range(n)],
+      'T': [['a', '', None, 5, ['L', 'q']][i % 5] for i in range(n)],
+      'C': [[['L', 'a'], ['L', 'a', 'b'], None, 'a,b', ['L']][i % 5] for i in range(n)]}]])
+    for i, f in enumerate(ZOO_PROBES):
+      p.apply([['AddColumn', 'Z', 'P%d' % i, {'isFormula': True, 'type': 'Any', 'formula': f}]])
+    mon = ReopenMonitor(1)
+    class H(object):
+      pass
+    h = H()
+    h.acc, h.proc, h.proc_kw, h.log, h.seed, h.step_no = acc, p, {'timeout': 240.0}, [], 'zoo', 0
+    h.violation = lambda mech, summary, detail=None: acc.violation(mech, 'zoo: ' + summary, detail)
+    mon.step = 0
+    acc.count('zoo_runs')
+    mon.compare(h, snapshot.take(p), None)
+
+
 def run_shard(spec, acc):
+  if spec.get('zoo'):
+    return zoo(acc)
   if spec.get('witness'):
     return globals()['witness_' + spec['witness']](acc)
   mon = ReopenMonitor(spec.get('every', 5))
